@@ -564,6 +564,18 @@ func ruleG19(c *Ctx) *RuleResult {
 					return
 				}
 				f, base := fieldOfAddr(st.Addr)
+				// a field of a value embedded in a muxer object (`pl := &s.mediaPlaylist; pl.Version = …`) is a part
+				// of that object: climb to the outermost field of the address
+				for f != nil && (f.Pkg() == nil || f.Pkg().Path() != modPath) {
+					var up *types.Var
+					switch b := base.(type) {
+					case *ssa.FieldAddr:
+						up, base = fieldOfAddr(b)
+					case *ssa.IndexAddr:
+						up, base = fieldOfAddr(b.X)
+					}
+					f = up
+				}
 				if f == nil || f.Pkg() == nil || f.Pkg().Path() != modPath {
 					return
 				}
